@@ -8,23 +8,25 @@ From J5V.proofs Require Import CodecEncProofs CodecEncLex CodecEncEmbed CodecEnc
 Import ListNotations.
 Local Open Scope N_scope.
 
-(* The property at full strength.  Outside the model: the text strconv prints for a finite
-   float is a JSON number; the inner encoding of an Any payload and the stored j5_json text
-   are JSON documents (ANY well-formed text: white space, non-canonical escapes — they are embedded
-   verbatim).  Proved in proofs/CodecEncEmbed.v: the strict reader reads a standalone JSON text the same
-   way inside a longer text, and the induction over the encoder is carried out with "the reader reads
-   this text as J" in place of "this text is the compact print of J". *)
+(* The property at full strength: NO condition on the message.  Outside the model: the text strconv
+   prints for a finite float is a JSON number; the inner encoding of an Any payload is a JSON
+   document.  A stored j5_json text is embedded verbatim (ANY well-formed text: white space,
+   non-canonical escapes) after the encoder has checked that it is one JSON value in valid UTF-8
+   (CodecEnc.stored_json = the json.Valid && utf8.Valid guard of encodeAny, /repo fix); a text that is
+   not makes the encoding fail (C08_any_stored_text_not_json_fails), which the property allows.
+   Proved in proofs/CodecEncEmbed.v: the strict reader reads a standalone JSON text the same way inside
+   a longer text, and the induction over the encoder is carried out with "the reader reads this text
+   as J" in place of "this text is the compact print of J". *)
 Theorem C08_full_statement :
   forall fmt_float any_inner env root m txt,
     float_text_ok fmt_float ->
     (forall tn pb t, any_inner tn pb = Ok t -> json_text t) ->
     oneofs_flat env ->
-    raw_root_gen env json_text root m ->          (* every stored j5_json text that is embedded *)
     encode fmt_float any_inner env root m = Ok txt ->
     exists J, strict_parse txt = Some J /\ wire_format fmt_float env root m J.
 Proof.
-  intros fmt_float any_inner env root m txt Hf Hi Hflat Hraw H.
-  exact (encode_wellformed_full fmt_float any_inner env Hf Hi Hflat root m txt H Hraw).
+  intros fmt_float any_inner env root m txt Hf Hi Hflat H.
+  exact (encode_wellformed_full fmt_float any_inner env Hf Hi Hflat root m txt H).
 Qed.
 Print Assumptions C08_full_statement.
 (* a standalone JSON text inside a longer text: the reader reads the same value and stops in
@@ -302,14 +304,25 @@ Definition ea_txt : bytes := Eval vm_compute in
   match encode ex_fmt ex_inner ea_env [82] ea_msg with Ok t => t | _ => [] end.
 Definition ea_tree : jvalue := JObj [([97], JObj [(txt_type, JStr [84]); (txt_value, JObj [([97], JStr [65])])])].
 Example C08_example_embedded_text :
-  raw_root_gen ea_env json_text [82] ea_msg /\
   encode ex_fmt ex_inner ea_env [82] ea_msg = Ok ea_txt /\
   strict_parse ea_txt = Some ea_tree /\ ea_txt <> print ea_tree.
 Proof.
-  split.
-  - unfold raw_root_gen. change (lookup ea_env [82]) with (Some (SObject [mkProp [97] [1] false true [] (FAny false)])).
-    constructor. intros p v Hp Hv. destruct Hp as [<-|[]]. vm_compute in Hv. injection Hv as <-.
-    constructor. intros m s [= <-] _ Hs. vm_compute in Hs. injection Hs as <-.
-    eexists. vm_compute. reflexivity.
-  - split; [vm_compute; reflexivity|]. split; [vm_compute; reflexivity|vm_compute; discriminate].
+  split; [vm_compute; reflexivity|]. split; [vm_compute; reflexivity|vm_compute; discriminate].
 Qed.
+
+(* Before the /repo fix encodeAny copied the stored j5_json bytes without looking at them: a j5 Any
+   storing {not json made ProtoToJSON succeed with a text that is not JSON.  The unguarded encoder
+   (enc_any_v0: the model before the fix) violates the property on that message; the guarded one fails. *)
+Definition bad_json : bytes := [123; 110; 111; 116; 32; 106; 115; 111; 110].     (* {not json *)
+Definition bad_msg : msg := [(1, VMsg [(1, VStr [84]); (3, VBytes bad_json)])].
+Definition enc_any_v0_text : bytes :=     (* {"a":{"!type":"T","value":{not json}} — what the unguarded encoder wrote *)
+  [123; 34; 97; 34; 58; 123; 34; 33; 116; 121; 112; 101; 34; 58; 34; 84; 34; 44; 34; 118; 97; 108; 117; 101; 34; 58]
+  ++ bad_json ++ [125; 125].
+Theorem C08_any_stored_text_v0_refuted : strict_parse enc_any_v0_text = None.
+Proof. vm_compute. reflexivity. Qed.
+Print Assumptions C08_any_stored_text_v0_refuted.
+Theorem C08_any_stored_text_not_json_fails :
+  forall fmt_float any_inner, exists e, encode fmt_float any_inner ea_env [82] bad_msg = Err e.
+Proof. intros. eexists. vm_compute. reflexivity. Qed.
+Print Assumptions C08_any_stored_text_not_json_fails.
+
